@@ -25,8 +25,9 @@ class BaseCore : public InlineCore {
   };
 
   bool Empty() const noexcept {
+    // "no result yet": for shared cores the word also holds the list of attached callbacks, which is not a result
     auto callback = _callback.load(std::memory_order_acquire);
-    return callback == kEmpty;
+    return callback != kResult;
   }
 
   template <bool Shared>
